@@ -189,7 +189,7 @@ REQUESTS = {
 
 
 def gen_cases(ctx):
-    L = ctx.pick(3, 4)
+    L = ctx.pick(4, 5)
     for n in range(0, L + 1):
         for stack in itertools.product(['pass', 'short', 'rewrite', 'wrap'], repeat=n):
             for table in HANDLER_TABLES:
@@ -253,7 +253,7 @@ def run(ctx):
                 'and without handlers registered for the new code) x %d request kinds (success, each failure class, as call and '
                 'notification, mixed batch, all-notification batch, null result, unparsable / invalid / empty / oversize documents) x '
                 'sync/async. state = one configuration x request; non-trivial = at least one middleware / handler event expected'
-                % (ctx.pick(3, 4), len(HANDLER_TABLES), len(REQUESTS) + 1))
+                % (ctx.pick(4, 5), len(HANDLER_TABLES), len(REQUESTS) + 1))
     ctx.assumptions += ['user middlewares / handlers do not raise; a short-circuiting middleware\'s response is sent even for a notification']
     ctx.run_cases('C12', lambda: gen_cases(ctx), run_case, recheck_every=499)
     ctx.guard('events compared', ctx.rec.nontrivial_n > 1000, ctx.rec.nontrivial_n)
